@@ -42,9 +42,40 @@ def make_spec(st, idx, tier):
     cut = float(st.sched.uniform(250, 480))
     ops = [o for o in spec["ops"] if o["t"] <= cut]
     cs = contests_of(spec["world"])
+    world = spec["world"]
+    knife = None
+    if chance(rng, 0.45):
+        # a knife-edge contest: every unit of one contest has reported in full and its counted margin is a hair away
+        # from zero (inside the +-0.005 band the calls must push predictions out of)
+        from nightsim.night import feed_row
+        knife = choice(rng, cs)
+        mem = [b for b in world["baseline"] if (f"{b['postal_code']}_{b['district']}" if world["district_election"] else b["postal_code"]) == knife]
+        target = float(rng.uniform(-0.0049, 0.0049))
+        tot_two = sum(world["truth"][b["geographic_unit_fips"]]["dem"] + world["truth"][b["geographic_unit_fips"]]["gop"] for b in mem)
+        cur = sum(world["truth"][b["geographic_unit_fips"]]["dem"] - world["truth"][b["geographic_unit_fips"]]["gop"] for b in mem)
+        shift = int(round((target * tot_two - cur) / 2.0))  # move `shift` votes from gop to dem (keeps two-party totals)
+        for b in sorted(mem, key=lambda b: -(world["truth"][b["geographic_unit_fips"]]["dem"] + world["truth"][b["geographic_unit_fips"]]["gop"])):
+            t = world["truth"][b["geographic_unit_fips"]]
+            mv = max(-t["dem"], min(t["gop"], shift))
+            t["dem"] += mv
+            t["gop"] -= mv
+            shift -= mv
+            if shift == 0:
+                break
+        ops = [o for o in ops if not (o.get("u") in {b["geographic_unit_fips"] for b in mem})]
+        for b in mem:
+            t = world["truth"][b["geographic_unit_fips"]]
+            ops.append(dict(t=round(cut, 3), k="deliver", u=b["geographic_unit_fips"], ver=99,
+                            row=feed_row(b, dict(pev=100, dem=t["dem"], gop=t["gop"], turnout=max(t["turnout"], t["dem"] + t["gop"])))))
+        spec["profile"]["model_parameters"]["turnout_factor_lower"] = 0.01
+        spec["profile"]["model_parameters"]["turnout_factor_upper"] = 100.0
+        spec["profile"]["model_parameters"].pop("unit_blocklist", None)
+        spec["profile"]["model_parameters"].pop("postal_code_blocklist", None)
     lhs, rhs, stop = [], [], []
     for c in cs:
         r = rng.random()
+        if c == knife:
+            r = r * 0.6  # always called, either side
         if r < 0.3:
             lhs.append(c)
         elif r < 0.6:
@@ -130,6 +161,8 @@ class Checker(C.BaseChecker):
                 if pm0 is not None and (pm0 < 0.005 or lo0 < 0):
                     nontrivial = True
                     st.probes["called_left_against_model"] += 1
+                if pm0 is not None and 0 < pm0 < 0.005:
+                    st.probes["called_left_with_model_margin_inside_band"] += 1
                 if not pm >= 0.005:
                     out.append(self.v("call_not_honoured", f"{label} called for the left party but pred_margin={pm}", side="left", part="prediction"))
                 for a in alphas:
@@ -141,6 +174,8 @@ class Checker(C.BaseChecker):
                 if pm0 is not None and (pm0 > -0.005 or up0 > 0):
                     nontrivial = True
                     st.probes["called_right_against_model"] += 1
+                if pm0 is not None and -0.005 < pm0 < 0:
+                    st.probes["called_right_with_model_margin_inside_band"] += 1
                 if not pm <= -0.005:
                     out.append(self.v("call_not_honoured", f"{label} called for the right party but pred_margin={pm}", side="right", part="prediction"))
                 for a in alphas:
